@@ -382,14 +382,22 @@ func load(property string, tier string, extraOverlay map[string]string) *loaded 
 				if def == nil {
 					def = fd
 				}
-				// includes of the defining file first, then the defining file, then the registering file
-				for _, t := range def.lines {
-					if t[0] == "include" {
-						if inc := byPath[filepath.Clean(filepath.Join(filepath.Dir(def.path), t[1]))]; inc != nil && !inc.common {
-							h.apply(inc, pkg)
+				// includes of the defining file first (recursively), then the defining file, then the registering file
+				seenInc := map[string]bool{}
+				var applyIncludes func(f *fileDirectives)
+				applyIncludes = func(f *fileDirectives) {
+					for _, t := range f.lines {
+						if t[0] == "include" {
+							ip := filepath.Clean(filepath.Join(filepath.Dir(f.path), t[1]))
+							if inc := byPath[ip]; inc != nil && !inc.common && !seenInc[ip] {
+								seenInc[ip] = true
+								applyIncludes(inc)
+								h.apply(inc, pkg)
+							}
 						}
 					}
 				}
+				applyIncludes(def)
 				if def != fd && !def.common {
 					h.apply(def, pkg)
 				}
